@@ -39,16 +39,18 @@ type Spec struct {
 	Hi      []float64 `json:"hi,omitempty"`
 	Hess    []float64 `json:"hess,omitempty"` // bfgs: Hessian option, row major
 	Cap     int       `json:"cap"`            // callback budget (harness safety, not an input of the routine)
+	Mode    string    `json:"mode,omitempty"` // newton: HessianModification ("" = option not passed)
 }
 
 type Run struct {
-	Ev      []Ev
-	Kind    int // 0 returned without error, 1 hook stop, 2 error, 3 panic
-	Point   []float64
-	X0After []float64
-	H0      []float64 // bfgs: inverse of the Hessian option as computed by matrixInverse.Run
-	Dropped string
-	Hooked  bool
+	Ev       []Ev
+	Kind     int // 0 returned without error, 1 hook stop, 2 error, 3 panic
+	Point    []float64
+	X0After  []float64
+	H0       []float64 // bfgs: inverse of the Hessian option as computed by matrixInverse.Run
+	Dropped  string
+	Hooked   bool
+	PanicMsg string
 }
 
 func inBox(s *Spec, x []float64) bool {
@@ -60,7 +62,12 @@ func inBox(s *Spec, x []float64) bool {
 	return true
 }
 
+func isNewton(rt string) bool { return rt == "newton_root" || rt == "newton_crit" }
+
 func runSpec(s *Spec) (run *Run) {
+	if isNewton(s.Routine) {
+		return runNewton(s)
+	}
 	run = &Run{}
 	lg := &Log{Cap: s.Cap}
 	if lg.Cap <= 0 {
@@ -285,6 +292,9 @@ func coqEv(e Ev) string {
 }
 
 func coqCase(s *Spec, r *Run) string {
+	if isNewton(s.Routine) {
+		return coqCaseNewton(s, r)
+	}
 	var rt string
 	switch s.Routine {
 	case "rprop", "rprop_dense":
@@ -314,7 +324,7 @@ func coqCase(s *Spec, r *Run) string {
 	return fmt.Sprintf("mkCase (%s) %s\n   [%s]\n   %d %s %s", rt, FList(s.X0), strings.Join(evs, ";\n    "), r.Kind, FList(r.Point), FList(r.X0After))
 }
 
-const coqHeader = "From Coq Require Import ZArith List Bool Floats.\nFrom ADV Require Import Base.Num C07.Model C07.Corr.\nImport ListNotations.\nOpen Scope Z_scope.\n"
+const coqHeader = "From Coq Require Import ZArith List Bool Floats.\nFrom ADV Require Import Base.Num C07.Model C07.ModelNewton C07.Corr.\nImport ListNotations.\nOpen Scope Z_scope.\n"
 
 // ---------------------------------------------------------------- generators
 
@@ -505,7 +515,7 @@ func genSpec(r *Rng) Spec {
 func nontrivial(r *Run) bool {
 	ne := 0
 	for _, e := range r.Ev {
-		if e.K == "eval" {
+		if e.K == "eval" || e.K == "evalv" {
 			ne++
 		}
 	}
@@ -537,20 +547,37 @@ func loadSpecs(path string) []Spec {
 }
 
 func addCase(w *CaseWriter, s *Spec, r *Run) {
-	ne, nh, nc := 0, 0, 0
+	ne, nh, nc, nd := 0, 0, 0, 0
 	for _, e := range r.Ev {
 		switch e.K {
-		case "eval":
+		case "eval", "evalv":
 			ne++
-		case "hook":
+		case "hook", "hookv":
 			nh++
+		case "dir":
+			nd++
 		default:
 			nc++
 		}
 	}
-	kinds := []string{"ok", "hookstop", "error", "panic"}
+	kinds := map[int]string{0: "ok", 1: "hookstop", 2: "error", 3: "panic", 20: "err_initial", 21: "err_objective",
+		22: "err_nan", 23: "err_direction", 24: "err_linesearch"}
 	w.Count("routine:" + s.Routine)
 	w.Count("routine:" + s.Routine + ":" + kinds[r.Kind])
+	if isNewton(s.Routine) {
+		w.Count("newton_mode:" + s.Mode)
+		w.CountN("events:dir", nd)
+		if r.Kind == 3 {
+			m := r.PanicMsg
+			if len(m) > 48 {
+				m = m[:48]
+			}
+			w.Count("newton_panic:" + m)
+		}
+		if r.Kind == 24 {
+			w.Count(fmt.Sprintf("newton_backtrack_exhausted_after_rejections:%v", nc > 1))
+		}
+	}
 	w.Count(fmt.Sprintf("dim:%d", len(s.X0)))
 	w.Count("objective:" + s.Obj.Kind)
 	if s.Cons {
@@ -599,7 +626,12 @@ func main() {
 	}
 	rng := NewRng(o.Seed)
 	for tries := 0; w.Len() < o.N+0 && tries < 20*o.N+100; tries++ {
-		s := genSpec(rng.Split())
+		var s Spec
+		if tries%13 < 3 {
+			s = genNewtonSpec(rng.Split())
+		} else {
+			s = genSpec(rng.Split())
+		}
 		r := runSpec(&s)
 		if r.Dropped != "" {
 			w.Count("dropped:" + r.Dropped)
@@ -643,7 +675,7 @@ func replay(o Opts) {
 	}
 	w.Flush()
 	fails := propertyOracle(s, r)
-	res := map[string]interface{}{"dropped": r.Dropped, "failures": fails, "kind": r.Kind, "point": fmt.Sprint(r.Point)}
+	res := map[string]interface{}{"dropped": r.Dropped, "failures": fails, "kind": r.Kind, "point": fmt.Sprint(r.Point), "panic": r.PanicMsg}
 	jb, _ := json.MarshalIndent(res, "", " ")
 	os.WriteFile(filepath.Join(o.Out, "replay_oracle.json"), jb, 0644)
 }
